@@ -711,3 +711,23 @@ package tree
 //@   ensures double_is_a_number [C04]: istype(tv.Value, *sdcpb.TypedValue_DoubleVal) ==> called(NewNumDatum, 3) && result == callres(NewNumDatum, 3) && callarg(NewNumDatum, 3, 0) == tv.GetDoubleVal() && !called(NewLiteralDatum)
 //@   ensures booleans_are_booleans [C04]: istype(tv.Value, *sdcpb.TypedValue_BoolVal) ==> called(NewBoolDatum) && result == callres(NewBoolDatum, 0) && callarg(NewBoolDatum, 0, 0) == tv.GetBoolVal()
 //@   loop 0 invariant true
+
+// ---------------------------------------------------------------------------
+// C04 C08: the intents one transaction sets. Each of them becomes the actual owner in turn and stays one of the actual
+// owners; the index lookups of the mandatory and the choice resolution leave out what the store holds of all of them.
+//@ func NewTreeContext
+//@   props C04 C08
+//@   modifies nothing
+//@   ensures the_first_owner_counts: result != nil && fresh(result) && result.actualOwner == actualOwner && result.actualOwners != nil && fresh(result.actualOwners) &&
+//@            allstr(k, present(result.actualOwners, k) == (k == actualOwner))
+//@ func (*TreeContext).SetActualOwner
+//@   props C04 C08
+//@   requires t != nil
+//@   modifies t.actualOwner, t.actualOwners, mapof(t.actualOwners)
+//@   ensures becomes_an_actual_owner [C04 C08]: t.actualOwner == owner && present(t.actualOwners, owner)
+//@   ensures earlier_owners_stay [C04 C08]: allstr(k, k != owner ==> present(t.actualOwners, k) == old(present(t.actualOwners, k)))
+//@ func (*TreeContext).IsActualOwner
+//@   props C04 C08
+//@   requires t != nil
+//@   modifies nothing
+//@   ensures every_owner_of_the_transaction [C04 C08]: result == (owner == t.actualOwner || present(t.actualOwners, owner))
